@@ -685,6 +685,29 @@ def shard(ctx, arg):
             ctx.sample({"case": i, "special": special, "packages": [(p.name, hex(p.pid), [(t.name, t.entry_count, [(c.config.locale_tag(), c.config.density, c.config.sdk, c.layout, len(c.entries)) for c in t.chunks]) for t in p.types]) for p in m.table.packages]})
 
 
+def replay(ctx, path):
+    """re-run the cases named in a replay file (cases are pure functions of (seed, case index); 'fixedN' are the hand-made ones)"""
+    import json
+    with open(path) as f:
+        j = json.load(f)
+    ctx.seed = j.get("seed", ctx.seed)
+    ctx.rule = "replay of %s" % path
+    fixed = fixed_cases()
+    for w in j["witnesses"]:
+        c = w.get("case")
+        if isinstance(c, int):
+            rng = ctx.rng("c28", c)
+            m = gen_table(rng, rng.choice(SPECIALS))
+        elif isinstance(c, str) and c.startswith("fixed"):
+            m = fixed[int(c[5:])]
+        else:
+            continue
+        check_table(ctx, m, c)
+        ctx.sig("replay", c)
+        ctx.sample({"replayed_case": c})
+    ctx.min_distinct = 1
+
+
 def run(ctx):
     ctx.rule = ("random table models: 1-2 packages, 1-7 types (string, integer, bool, color, dimen, fraction, id, file types; array/style/plurals/attr as bags "
                 "with parent), 1-8 configurations per type (locales incl. packed 3-letter, densities, sdk, orientation, mcc/mnc, sw dp, script/variant; config "
@@ -698,7 +721,7 @@ def run(ctx):
                        "trusted base: vf.model.arscw (round-tripped through its own reader, which also reads every shipped resources.arsc)"]
     for i, m in enumerate(fixed_cases()):
         check_table(ctx, m, "fixed%d" % i)
-    n = 640 if ctx.quick else 16000
+    n = 640 if ctx.quick else 40000
     per = n // 16
     ctx.run_shards(MOD, "shard", [[k * per, (k + 1) * per] for k in range(16)], timeout=1500)
     ctx.require_counter("ARSCParser", 200)
